@@ -28,6 +28,9 @@ pub struct EpRate {
 pub enum Case {
     Pair(PairScenario),
     Endpoints { endpoints: EpRate },
+    /// a Pair scenario during which one endpoint is handed `per_tick` copies of a keepalive sync frame after
+    /// each of `ticks` ticks starting at `from_tick` (every sync frame is owed a reply)
+    SyncFlood { sc: PairScenario, ep: u8, from_tick: u16, ticks: u16, per_tick: u8 },
 }
 
 fn run_endpoints(c: &EpRate) -> CaseResult {
@@ -234,7 +237,20 @@ impl Check for C13 {
             tier.pick(100u16, 300u16)..tier.pick(600u16, 2000u16),
         )
             .prop_map(|(seed, server_rates, client_rates, (l0, l1), period_us, flushes, sends, ticks)| Case::Endpoints { endpoints: EpRate { seed, server_rates, client_rates, latency_us: [l0, l1], period_us, flushes, sends, ticks } });
-        prop_oneof![5 => pair_strategy(tier).prop_map(Case::Pair), 1 => endpoints].boxed()
+        // sync flood: tight ceiling, fast cadence, a backlog that keeps the bucket in debt
+        let p = GenParams { max_ticks: tier.pick(300, 800), max_sends: 6, max_frags: 3, low_bandwidth: true, tail: false, modes: [1, 2, 2, 3], ..GenParams::default() };
+        let flood = (scenario_strategy(&p), 0u8..2, any::<u16>(), 50u16..600, 1u8..4, 1472u32..6000, prop_oneof![Just(1_000u64), Just(2_000u64), Just(5_000u64)]).prop_map(|(mut sc, ep, from_tick, ticks, per_tick, bw, dt)| {
+            sc.dirs[ep as usize % 2].bw_limit = bw;
+            for t in sc.ticks.iter_mut() {
+                t.dt_us = t.dt_us.min(dt);
+                for a in t.acts.iter_mut() {
+                    a.step = true;
+                }
+            }
+            sc.normalize();
+            Case::SyncFlood { sc, ep, from_tick, ticks, per_tick }
+        });
+        prop_oneof![10 => pair_strategy(tier).prop_map(Case::Pair), 2 => endpoints, 1 => flood].boxed()
     }
 
     fn cases(&self, tier: Tier) -> u64 {
@@ -242,7 +258,7 @@ impl Check for C13 {
     }
 
     fn rule(&self) -> String {
-        "two case kinds. Endpoints (1 in 6): a real Client and Server with independently generated max_send_rate / max_receive_rate (1472 B/s .. 2 MB/s, 2^32-1), Reliable backlogs in both directions, 0-2 extra flushes per step; for every pair of frames of a sender, bytes <= min(its max_send_rate, the PEER's max_receive_rate) * (dt + largest RTT estimate + 2 step gaps) + 2 * 1472. Pair: SimPair scenario with bandwidth ceilings log-spread over [1472 B/s, 20 MB/s] (and 2^32-1) on either side, backlogs from nothing to hundreds of kB, cadences with several flush() per step, dt = 0 and long pauses, loss / duplication / delay patterns that walk the rate controller through slow start, equation mode and no-feedback expiries. Oracle: for every pair of emitted frames i <= j of an endpoint, bytes(i..=j) <= C * ((t_j - t_i) + max rtt_s() reported in or just before the interval) + 1472 + one rounding byte per step in the interval. Non-trivial = the sender was credit-limited in at least one snapshot (negative credit with data queued). Distinct = distinct serialised scenario.".into()
+        "two case kinds. Endpoints (1 in 6): a real Client and Server with independently generated max_send_rate / max_receive_rate (1472 B/s .. 2 MB/s, 2^32-1), Reliable backlogs in both directions, 0-2 extra flushes per step; for every pair of frames of a sender, bytes <= min(its max_send_rate, the PEER's max_receive_rate) * (dt + largest RTT estimate + 2 step gaps) + 2 * 1472. SyncFlood (1 in 13): a Pair scenario with a ceiling of 1472-6000 B/s and steps 1-5 ms apart during which one endpoint is handed 1-3 keepalive sync frames after each of 50-600 consecutive ticks (each is owed a reply). Pair: SimPair scenario with bandwidth ceilings log-spread over [1472 B/s, 20 MB/s] (and 2^32-1) on either side, backlogs from nothing to hundreds of kB, cadences with several flush() per step, dt = 0 and long pauses, loss / duplication / delay patterns that walk the rate controller through slow start, equation mode and no-feedback expiries. Oracle: for every pair of emitted frames i <= j of an endpoint, bytes(i..=j) <= C * ((t_j - t_i) + max rtt_s() reported in or just before the interval) + 1472 + one rounding byte per step in the interval. Non-trivial = the sender was credit-limited in at least one snapshot (negative credit with data queued). Distinct = distinct serialised scenario.".into()
     }
 
     fn assumptions(&self) -> Vec<String> {
@@ -253,14 +269,32 @@ impl Check for C13 {
     }
 
     fn run(&self, case: &Case) -> CaseResult {
-        let sc = match case {
-            Case::Pair(sc) => sc,
+        let (sc, flood) = match case {
+            Case::Pair(sc) => (sc, None),
             Case::Endpoints { endpoints } => return run_endpoints(endpoints),
+            Case::SyncFlood { sc, ep, from_tick, ticks, per_tick } => (sc, Some((*ep as usize % 2, *from_tick, *ticks, *per_tick))),
         };
         let mut sc = sc.clone();
         sc.normalize();
-        let trace = SimPair::run(&sc);
         let mut classes: Vec<&'static str> = Vec::new();
+        let trace = if let Some((ep, from_tick, ticks, per_tick)) = flood {
+            use uflow::verif::Serialize as _;
+            let sync = uflow::verif::Frame::SyncFrame(uflow::verif::SyncFrame { next_frame_id: None, next_packet_id: None }).write();
+            let first = crate::engine::pick_index(from_tick, sc.ticks.len().max(1));
+            let mut sim = SimPair::new(&sc);
+            for (k, t) in sc.ticks.iter().enumerate() {
+                sim.run_tick(t);
+                if k >= first && k < first + ticks as usize {
+                    for _ in 0..per_tick {
+                        sim.handle_bytes(ep, &sync);
+                    }
+                }
+            }
+            classes.push("sync_flood");
+            sim.finish()
+        } else {
+            SimPair::run(&sc)
+        };
         let mut limited = false;
         for s in 0..2 {
             if trace.wire[s].len() > 4000 {
